@@ -3,7 +3,7 @@ from __future__ import annotations
 
 import ast
 
-from sa.astx import call_attr, call_name, dotted, src, statements, walk_local
+from sa.astx import call_attr, call_name, src, statements, walk_local
 from sa.domains import replace_chain
 from sa.effects import class_accesses
 from sa.selftest import Mutant, Silent
@@ -65,7 +65,7 @@ def _reference(body: bytes, delim: bytes, line_start: bool) -> bytes:
 
 def _delims(ctx):
     """(server line delimiter, client line delimiter) resolved through the class hierarchy."""
-    smod, bmod = ctx.mod(SMTP), ctx.mod(BASIC)
+    smod = ctx.mod(SMTP)
 
     def resolve(cls_name, base_name):
         for cn in ([cls_name] + (["ESMTP"] if cls_name == "SMTP" else ["ESMTPClient"])):
